@@ -67,9 +67,9 @@ theorem fromdict_rejects_unknown_key (S : Schema) (c : Nat) (k : Class) (ks : Li
 /-! ### the guard cannot be dropped: concrete witnesses (replayed on the implementation in `corpus()`) -/
 
 /-- `P` = one field `x : Any = 0` -/
-def exP : Class := ⟨[⟨[120], .any, some (.int 0)⟩]⟩
+def exP : Class := { fields := [⟨[120], .any, some (.int 0)⟩] }
 /-- `L a` = one field `a : <ann> = None` -/
-def exL (a : Ann) : Class := ⟨[⟨[97], a, some .null⟩]⟩
+def exL (a : Ann) : Class := { fields := [⟨[97], a, some .null⟩] }
 def exInner : Tree := .obj 0 [[120]] [.int 1]
 
 /-- F45 / C28-K1: an instance inside a `list[P]` field comes back as a plain dict -/
@@ -109,9 +109,9 @@ theorem roundtrip_fails_plain_dict_in_class_field :
 /-! ### unions of several data-object classes (`Circle | Square | None`, `Optional[Union[Circle, Square]]`) -/
 
 /-- `Circle` = one field `r : Any = 0`;  `Square` = one field `s : Any = 0`;  `Box` = one field `r : Any = 1` -/
-def exCircle : Class := ⟨[⟨[114], .any, some (.int 0)⟩]⟩
-def exSquare : Class := ⟨[⟨[115], .any, some (.int 0)⟩]⟩
-def exBox : Class := ⟨[⟨[114], .any, some (.int 1)⟩]⟩
+def exCircle : Class := { fields := [⟨[114], .any, some (.int 0)⟩] }
+def exSquare : Class := { fields := [⟨[115], .any, some (.int 0)⟩] }
+def exBox : Class := { fields := [⟨[114], .any, some (.int 1)⟩] }
 
 /-- a value of the SECOND member of a union round-trips when the first member lacks one of its field names
 (instance of the guard `wt`, proved through the general theorem) -/
@@ -119,8 +119,8 @@ theorem union_second_member_roundtrips :
     fromdict [exCircle, exSquare, exL (.opt [0, 1])] 2 (dictify (.obj 2 [[97]] [.obj 1 [[115]] [.int 3]]))
       = .ok (.obj 2 [[97]] [.obj 1 [[115]] [.int 3]]) :=
   fromdict_asdict_partial _ 2 _ _ (by
-    refine wt_obj_intro [] (exL (.opt [0, 1])) [] rfl (by simp) rfl (by decide) ⟨?_, trivial⟩
-    refine wt_obj_intro [(0, exCircle)] exSquare [] rfl ?_ rfl (by decide) ⟨trivial, trivial⟩
+    refine wt_obj_intro [] (exL (.opt [0, 1])) [] rfl (by simp) rfl (by decide) rfl ⟨?_, trivial⟩
+    refine wt_obj_intro [(0, exCircle)] exSquare [] rfl ?_ rfl (by decide) rfl ⟨trivial, trivial⟩
     intro p hp
     simp only [List.mem_singleton] at hp; subst hp
     exact ⟨[115], by simp [exSquare], by simp [exCircle, Class.field?]⟩)
@@ -137,15 +137,36 @@ theorem union_ambiguous_members_fail :
       = .ok (.obj 2 [[97]] [.obj 0 [[114]] [.int 3]]) from rfl]
   simp
 
+/-! ### members that validate in `__post_init__` -/
+
+/-- `Percent` = `n : Any = 0` with `__post_init__` raising unless `0 ≤ n ≤ 100`;  `Count` = `n : Any = 0` unchecked -/
+def exPercent : Class := { fields := [⟨[110], .any, some (.int 0)⟩], check := some ⟨[110], 0, 100⟩ }
+def exCount : Class := { fields := [⟨[110], .any, some (.int 0)⟩] }
+
+/-- an earlier union member that REJECTS the dict in its `__post_init__` (any exception class) is skipped like one that
+lacks a key: `level: Percent | Count` holding `Count(500)` round-trips -/
+theorem union_earlier_member_rejecting_in_post_init_is_skipped :
+    fromdict [exPercent, exCount, exL (.opt [0, 1])] 2 (dictify (.obj 2 [[97]] [.obj 1 [[110]] [.int 500]]))
+      = .ok (.obj 2 [[97]] [.obj 1 [[110]] [.int 500]]) := by rfl
+
+/-- … while a value the earlier member admits is claimed by it (the ambiguity of C28-K3) -/
+theorem union_earlier_member_admitting_claims_the_value :
+    fromdict [exPercent, exCount, exL (.opt [0, 1])] 2 (dictify (.obj 2 [[97]] [.obj 1 [[110]] [.int 50]]))
+      = .ok (.obj 2 [[97]] [.obj 0 [[110]] [.int 50]]) := by rfl
+
+/-- `_fromdict` of a dict its own class's `__post_init__` rejects is a `ValueError` from `_fromdict`, nothing else -/
+theorem fromdict_rejected_by_post_init :
+    fromdict [exPercent] 0 (.dict [[110]] [.int 500]) = .error .valueError := by rfl
+
 /-! ### non-vacuity: the guard is met by a concrete three-level nested instance, and the codec hypothesis by a codec -/
 
-def exS : Schema := [exP, exL (.dom 0), ⟨[⟨[98], .opt [1], none⟩, ⟨[103], .any, some .null⟩]⟩]
+def exS : Schema := [exP, exL (.dom 0), { fields := [⟨[98], .opt [1], none⟩, ⟨[103], .any, some .null⟩] }]
 def exX : Tree := .obj 2 [[98], [103]] [.obj 1 [[97]] [exInner], .list [.int 1, .dict [[122]] [.null]]]
 
 theorem exX_wt : wt exS (.dom 2) exX := by
-  refine wt_obj_intro [] _ [] rfl (by simp) rfl (by decide) ⟨?_, ⟨rfl, rfl⟩, trivial⟩
-  refine wt_obj_intro [] (exL (.dom 0)) [] rfl (by simp) rfl (by decide) ⟨?_, trivial⟩
-  exact wt_obj_intro [] exP [] rfl (by simp) rfl (by decide) ⟨trivial, trivial⟩
+  refine wt_obj_intro [] _ [] rfl (by simp) rfl (by decide) rfl ⟨?_, ⟨rfl, rfl⟩, trivial⟩
+  refine wt_obj_intro [] (exL (.dom 0)) [] rfl (by simp) rfl (by decide) rfl ⟨?_, trivial⟩
+  exact wt_obj_intro [] exP [] rfl (by simp) rfl (by decide) rfl ⟨trivial, trivial⟩
 example : fromdict exS 2 (dictify exX) = .ok exX := fromdict_asdict_partial exS 2 _ _ exX_wt
 example : ∃ C : Codec, C.dec (C.enc (dictify exX)) = some (dictify exX) :=
   ⟨⟨fun _ => [], fun _ => some (dictify exX)⟩, rfl⟩
